@@ -30,7 +30,9 @@ fn texts() -> Vec<&'static str> {
     vec!["plain", "", "line\nbreak", "back\\slash", "quote\"d", "tab\there", "nul\u{0}ctl\u{1f}", "\u{e9}\u{20ac}\u{1F600}", "mix \\n and \n", "\\\\n", "trailing\\",
          "crlf\r\nend", "cr\rend", "lfcr\n\rend", " lead and trail ", "MiXeD Case", ".dotfile", "a//b/./c/",
          // a line feed right after a backslash, and the other way round (escape sequences that touch)
-         "bs-lf\\\nend", "lf-bs\n\\end", "bsbs-lf\\\\\nend", "quote-lf\"\nend"]
+         "bs-lf\\\nend", "lf-bs\n\\end", "bsbs-lf\\\\\nend", "quote-lf\"\nend",
+         // a backslash followed by each letter that JSON uses in an escape (n is the subject of an open finding, see above)
+         "C:\\temp\\report", "bs-r\\rx", "bs-b\\bx", "bs-f\\fx", "bs-u\\u0041x", "bs-solidus\\/x", "bs-quote\\\"x"]
 }
 
 fn meta(text: &str) -> MetadataWrapper {
